@@ -120,6 +120,40 @@ def tree_control(props, label, commands):
         shutil.rmtree(tmp, ignore_errors=True)
 
 
+def env_control(props, label, env):
+    """control that transforms the parsed templates inside the front-end (environment switch): same verdicts, same counts"""
+    tmp = pathlib.Path(tempfile.mkdtemp(prefix=f"nvsa-{label}-"))
+    try:
+        all_props = [p.stem for p in sorted((VERIF / "checks").glob("C[0-9][0-9].py"))]
+        wanted = [p for p in all_props if not props or p in props]
+
+        def one(prop):
+            out, counts = [], {}
+            for which, e in (("tree", {}), (label, env)):
+                ev = tmp / f"ev-{which}"
+                rr = subprocess.run([sys.executable, str(VERIF / "check"), prop, "--evidence-dir", str(ev)], capture_output=True, text=True, timeout=900,
+                                    env=dict(os.environ, **e))
+                if which == label and rr.returncode != 0:
+                    lines = [ln for ln in (rr.stdout + rr.stderr).splitlines() if "violated" in ln or "ANALYSIS" in ln]
+                    out.append(f"{prop}: alarm under {label} (rc={rr.returncode}): " + " | ".join(x.strip()[:200] for x in lines[:3]))
+                try:
+                    d = json.loads((ev / f"{prop}.json").read_text())
+                    counts[which] = {k: v["obligations"] for k, v in d["coverage"]["rules"].items()}
+                except Exception:
+                    counts[which] = None
+            if counts.get("tree") != counts.get(label):
+                out.append(f"{prop}: rule instance counts differ under {label}: {counts}")
+            return out
+
+        problems = []
+        with ThreadPoolExecutor(max_workers=16) as ex:
+            for res in ex.map(one, wanted):
+                problems.extend(res)
+        return problems
+    finally:
+        shutil.rmtree(tmp, ignore_errors=True)
+
+
 def alpha_control(props):
     """behaviour-preserving control: every local variable of every Python function and every template-local variable
     (set / for targets) renamed -> every check silent, same instance counts"""
@@ -184,7 +218,12 @@ def main(props, jobs=16):
         print(f"FAIL equiv-rewrite control: {a}")
     if not eqv:
         print("ok   equiv-rewrite control: all checks silent on the tree with comparisons mirrored, if/else inverted and modules re-emitted by ast.unparse; instance counts identical")
-    alpha = alpha + eqv
+    j2e = env_control(props, "template-if-inversion", {"NVSA_J2_EQUIV": "1"})
+    for a in j2e:
+        print(f"FAIL template if-inversion control: {a}")
+    if not j2e:
+        print("ok   template if-inversion control: all checks decide the same with every template `if c A else B` turned into `if not c B else A`")
+    alpha = alpha + eqv + j2e
     if not alpha:
         print("ok   alpha-rename control: all checks silent on the tree with every Python local and template-local variable renamed; instance counts identical")
     nb = sum(1 for r in results if r[0]["kind"] == "break")
